@@ -140,7 +140,7 @@ def child(progs, d: str, conn):
         conn.send(("start", k, time.time()))
         t0 = time.time()
         try:
-            out = ctx.expand("{{#invoke:%s|main}}" % pname(k), timeout=LIMIT)
+            out = ctx.expand("{{#invoke:%s|main}}" % pname(k), timeout=limit_of(p))
             exc = None
         except BaseException as e:
             out, exc = None, repr(e)[:300]
@@ -155,6 +155,14 @@ def child(progs, d: str, conn):
     conn.send(("follow", follow))
     conn.close()
     os._exit(0)
+
+
+def limit_of(p) -> float:
+    """The configured limit of a run: the model's one clock granule stands for any limit up to LIMIT seconds,
+    whole or fractional (the Lua side counts whole seconds, so the abort still comes within LIMIT + BOUND)."""
+    import zlib
+
+    return (LIMIT, 0.5, 0.3)[zlib.crc32(json.dumps([p["body"], p["wrap"]]).encode()) % 3]
 
 
 def classify_run(k, elapsed, out, exc):
